@@ -91,6 +91,9 @@ def parseO : List String → Option OCall
   | "asl" :: c :: ys => (side? c).map (OCall.assignList · (ys.map parseItem))
   | ["cmp"] => some .compare
   | ["dump", c] => (side? c).map OCall.contents
+  | ["rdump", c] => (side? c).map OCall.rcontents
+  | "crange" :: c :: ys => (side? c).map (OCall.constructRange · (ys.map parseItem))
+  | "clist" :: c :: ys => (side? c).map (OCall.constructList · (ys.map parseItem))
   | _ => none
 
 def parseV : List String → Option VCall
@@ -120,6 +123,11 @@ def parseV : List String → Option VCall
   | ["cmove", c] => (side? c).map VCall.constructMove
   | ["cmp"] => some .compare
   | ["dump", c] => (side? c).map VCall.contents
+  | ["rdump", c] => (side? c).map VCall.rcontents
+  | ["cn", c, n, v] => (side? c).map (VCall.constructN · (nat! n) (nat! v))
+  | "crange" :: c :: ys => (side? c).map (VCall.constructRange · (ys.map nat!))
+  | ["reserve", c, n] => (side? c).map (VCall.reserve · (nat! n))
+  | ["shrink", c] => (side? c).map VCall.shrinkToFit
   | _ => none
 
 def urange? : List String → Option URange
@@ -167,6 +175,11 @@ def parseU : List String → Option UCall
   | "asl" :: c :: ys => (side? c).map (UCall.assignList · (ys.map parseItem))
   | ["cmp"] => some .compare
   | ["dump", c] => (side? c).map UCall.contents
+  | "crange" :: c :: ys => (side? c).map (UCall.constructRange · (ys.map parseItem))
+  | "clist" :: c :: ys => (side? c).map (UCall.constructList · (ys.map parseItem))
+  | ["reserve", c, n] => (side? c).map (UCall.reserve · (nat! n))
+  | ["rehash", c, n] => (side? c).map (UCall.rehash · (nat! n))
+  | ["mlf", c] => (side? c).map UCall.maxLoadFactor
   | _ => none
 
 def mrange? : List String → Option MRange
@@ -202,6 +215,8 @@ def parseM : List String → Option MCall
   | "asl" :: c :: ys => (side? c).map (MCall.assignList · (ys.map parseItem))
   | ["cmp"] => some .compare
   | ["dump", c] => (side? c).map MCall.contents
+  | "crange" :: c :: ys => (side? c).map (MCall.constructRange · (ys.map parseItem))
+  | "clist" :: c :: ys => (side? c).map (MCall.constructList · (ys.map parseItem))
   | _ => none
 
 structure S where
